@@ -12,22 +12,22 @@ from mc import builds
 _MARK = {}
 
 
-def markers():
+def markers(build="ctvictim"):
     """absolute marker addresses under valgrind (its loader places the PIE deterministically); calibrated once per process
     with --tool=none and re-checked against what each traced run prints"""
-    if not _MARK:
-        victim = builds.binary_path("ctvictim")
+    if build not in _MARK:
+        victim = builds.binary_path(build)
         p = subprocess.run(["valgrind", "-q", "--tool=none", victim, "noop", "00"], capture_output=True)
         first = p.stdout.decode().split()
         if len(first) < 3 or first[0] != "MARKERS":
             raise RuntimeError("calibration run failed: %r %r" % (p.stdout[:200], p.stderr[-300:]))
-        _MARK["b"], _MARK["e"] = int(first[1], 16), int(first[2], 16)
-    return _MARK["b"], _MARK["e"]
+        _MARK[build] = (int(first[1], 16), int(first[2], 16))
+    return _MARK[build]
 
 
-def trace(op, secret_hex, public_hex="", keep=False):
-    victim = builds.binary_path("ctvictim")
-    begin, end = markers()
+def trace(op, secret_hex, public_hex="", keep=False, build="ctvictim"):
+    victim = builds.binary_path(build)
+    begin, end = markers(build)
     cmd = ["valgrind", "--tool=lackey", "--trace-mem=yes", "--log-fd=2", victim, op, secret_hex]
     if public_hex:
         cmd.append(public_hex)
